@@ -31,6 +31,8 @@ pub struct Driver {
     pub epoll_fd: i32,
     pub kill_fd: i32,
     pub base_fds: usize,
+    /// files whose content is their tag: what clients pass to the server with SCM_RIGHTS
+    pub tags: crate::connexec::TagFiles,
 }
 
 /// Open descriptors of this process (the handle used for the listing itself excluded).
@@ -118,7 +120,8 @@ impl Driver {
                 Client { raw, sock: None, wr_shut: false, rd_shut: false, ever: false }
             })
             .collect();
-        let d = Driver { server, path, clients, held: vec![], kill, listener_fd, epoll_fd, kill_fd, base_fds: 0 };
+        let tags = crate::connexec::TagFiles::new(&format!("{}/tags-{}", sock_dir, std::process::id()));
+        let d = Driver { server, path, clients, held: vec![], kill, listener_fd, epoll_fd, kill_fd, base_fds: 0, tags };
         let line = json!({"e": "reset", "hist": hist, "maxconn": crate::MAX_CONN, "buf": crate::BUF, "limit": obs::digits(limit as u128),
                           "kill": with_kill, "lfd": listener_fd, "kfd": kill_fd, "nclients": nclients, "from_fd": from_fd, "kill_late": kill_late,
                           "srvfds": d.server_fd_count()});
@@ -168,14 +171,41 @@ impl Driver {
             }
             "send" => {
                 let bytes = obs::from_bytes(&st["bytes"]);
-                let Some(s) = self.clients.get_mut(c.wrapping_sub(1)).and_then(|c| c.sock.as_mut()) else { return false };
-                match s.write(&bytes) {
-                    Ok(n) => {
+                let want_fds: Vec<i64> = st["fds"].as_array().map(|a| a.iter().filter_map(|t| t.as_i64()).collect()).unwrap_or_default();
+                let raw_fds: Vec<i32> = want_fds.iter().map(|t| self.tags.open(*t)).collect();
+                let Some(s) = self.clients.get_mut(c.wrapping_sub(1)).and_then(|c| c.sock.as_mut()) else {
+                    for fd in raw_fds {
+                        // SAFETY: descriptors opened above and owned here.
+                        unsafe { libc::close(fd) };
+                    }
+                    return false;
+                };
+                // one sendmsg: the descriptors (if any) are ancillary data of exactly this message
+                let r = if raw_fds.is_empty() {
+                    s.write(&bytes)
+                } else {
+                    use vmm_sys_util::sock_ctrl_msg::ScmSocket;
+                    s.send_with_fds(&[&bytes[..]], &raw_fds).map_err(|e| std::io::Error::from_raw_os_error(e.errno()))
+                };
+                // our copies are closed at once: what the server receives are its own duplicates
+                for fd in raw_fds {
+                    // SAFETY: descriptors opened above and owned here.
+                    unsafe { libc::close(fd) };
+                }
+                match r {
+                    Ok(n) if n > 0 => {
                         line["bytes"] = obs::bytes(&bytes[..n]);
+                        line["fds"] = json!(want_fds);
+                        line["res"] = json!("ok");
+                    }
+                    Ok(_) => {
+                        line["bytes"] = json!([]);
+                        line["fds"] = json!([]);
                         line["res"] = json!("ok");
                     }
                     Err(e) => {
                         line["bytes"] = json!([]);
+                        line["fds"] = json!([]);
                         line["res"] = json!(format!("err:{:?}", e.kind()));
                     }
                 }
@@ -309,7 +339,8 @@ impl Driver {
                                 for q in reqs {
                                     let uri = obs::uri_text(q.inner()).into_bytes();
                                     yielded.push(json!({"c": client_of_uri(&uri).unwrap_or(0), "tag": obs::bytes(&uri),
-                                                        "body": obs::bytes(q.inner().body.as_ref().map_or(&[][..], |b| b.raw()))}));
+                                                        "body": obs::bytes(q.inner().body.as_ref().map_or(&[][..], |b| b.raw())),
+                                                        "files": q.inner().files.iter().map(obs::file_tag).collect::<Vec<i64>>()}));
                                 }
                             }
                             line["res"] = json!(srv_res(&r.as_ref().map(|_| vec![]).map_err(|e| clone_err(e))));
